@@ -1,7 +1,8 @@
 #!/bin/bash
 # fuzz/run.sh <target> <runs> <seed> <out-dir>
 # Coverage-guided campaign (libFuzzer via cargo-fuzz, no sanitizer: the code under test is safe Rust
-# and the oracle is inside the target). Builds the target against /repo's current tree, seeds the
+# and the oracle is inside the target; inputs are JSON cases, mutated by the structure-aware mutator
+# in harness/src/fuzzglue.rs). Builds the target against /repo's current tree, seeds the
 # corpus with generated cases, runs a fixed number of executions, copies crash inputs to <out-dir>.
 # Prints "FUZZ execs=<n> crashes=<n>"; exit 0 unless the infrastructure failed (exit 2).
 set -u
@@ -15,12 +16,9 @@ rm -rf "$WORK"; mkdir -p "$WORK/corpus" "$WORK/artifacts" "$OUT"
 cargo +nightly fuzz build --fuzz-dir . -s none "$T" >"$WORK/build.log" 2>&1 || { tail -5 "$WORK/build.log" >&2; echo "FUZZ build failed" ; exit 2; }
 kind=pool; [ "$T" = "farm_custody_rewards" ] && kind=farm
 "$ROOT/harness/target/release/dexcheck" dump-corpus $kind 300 "$WORK/corpus" "$SEED" || exit 2
-# dictionary: every quoted token of the seed corpus
-cat "$WORK"/corpus/*.json | grep -o '"[A-Za-z_]*"' | sort -u | sed 's/^"\(.*\)"$/"\\"\1\\""/' > "$WORK/dict.txt"
-printf '"null"\n"true"\n"false"\n"[]"\n"{"\n"}"\n","\n' >> "$WORK/dict.txt"
 BIN="$HERE/target/x86_64-unknown-linux-gnu/release/$T"
-JOBS=${VERIF_FUZZ_JOBS:-8}
-( cd "$WORK" && "$BIN" corpus -artifact_prefix="$WORK/artifacts/" -dict="$WORK/dict.txt" -runs="$RUNS" -seed="$SEED" -max_len=65536 -len_control=0 -only_ascii=1 -fork="$JOBS" -ignore_crashes=1 -print_final_stats=1 >"$WORK/run.log" 2>&1 )
+JOBS=${VERIF_FUZZ_JOBS:-14}
+( cd "$WORK" && "$BIN" corpus -artifact_prefix="$WORK/artifacts/" -runs="$RUNS" -seed="$SEED" -max_len=65536 -len_control=0 -fork="$JOBS" -ignore_crashes=1 -print_final_stats=1 >"$WORK/run.log" 2>&1 )
 execs=$(grep -o "stat::number_of_executed_units: *[0-9]*" "$WORK/run.log" | grep -o "[0-9]*$" | paste -sd+ | bc 2>/dev/null)
 [ -z "$execs" ] && execs=$(grep -oE "#[0-9]+" "$WORK/run.log" | tr -d '#' | sort -n | tail -1)
 n=0
